@@ -160,6 +160,25 @@ def _install():
             LOG["final"] = [[S.mid(c), S.tid(tp.topic), tp.partition]
                             for c, ps in self.current_assignment.items() for tp in ps]
 
+    _ORIG["populate"] = E._populate_sorted_partitions
+
+    def populate(self):
+        before = None
+        if LOG is not None and not self.is_fresh_assignment and self._are_subscriptions_identical():
+            # the members' assignable partitions, as the round-robin branch sees them
+            before = {c: [tp for tp in ps if tp in self.partition_to_all_potential_consumers]
+                      for c, ps in self.current_assignment.items()}
+        _ORIG["populate"](self)
+        if before is not None:
+            names = list(before)
+            owner = {tp: i for i, c in enumerate(names) for tp in before[c]}
+            n = sum(len(v) for v in before.values())
+            LOG["order"] = {"counts": [len(before[c]) for c in names],
+                            "owners": [owner.get(tp, -1) for tp in self.sorted_partitions[:n]],
+                            "members": [S.mid(c) for c in names],
+                            "listed": len(self.sorted_partitions)}
+
+    E._populate_sorted_partitions = populate
     E.__init__ = init
     E._assign_partition = assign
     E._reassign_partition_to_consumer = reassign_to
@@ -192,6 +211,8 @@ def run_sticky(case, with_log=True):
         res = {"out": conv_out(case, out)}
         if with_log:
             sc = LOG["scores"]
+            if "order" in LOG:
+                res["order"] = LOG["order"]
             res.update(init=LOG["init"], prev=LOG["prev"], assigns=LOG["assigns"],
                        reassigns=LOG["reassigns"], final=LOG["final"],
                        reverted=int(len(sc) == 2 and sc[0] >= sc[1]), nscores=len(sc))
